@@ -11,6 +11,7 @@ import Golib.Proof.C20Layout
 import Golib.Proof.C20Str
 import Golib.Proof.C20Utf8
 import Golib.Proof.C20Count
+import Golib.Proof.C20Numeral
 
 namespace Golib.C20
 open Golib.Gen.C20
@@ -100,6 +101,29 @@ theorem c20_id_layout (req ms r : Int) (hr0 : 0 ≤ r) (hr1 : r < (newIdGen req)
 /-- Non-vacuity: the default generator (18 random bits) at the last millisecond before
 the 41-bit time field wraps, with the largest random part. -/
 example : compose (newIdGen 18) (2 ^ 41 - 1) (2 ^ 18 - 1) = 2 ^ 59 - 1 := by decide +kernel
+
+/-- `String` / `Base2` / `Base36` are `strconv.FormatInt(int64(f), b)` with `b` = 10, 2, 36
+(bases regenerated from the source), and the model of `FormatInt` writes the standard
+numeral: for every base 2..36 the digits (each below the base, alphabet `0-9a-z`)
+evaluate back to the value by Horner's rule, with a leading `-` exactly for negatives. -/
+theorem c20_numerals :
+    baseOfString = 10 ∧ baseOfBase2 = 2 ∧ baseOfBase36 = 36 ∧
+    ∀ (b : Nat) (v : Int), 2 ≤ b → b ≤ 36 →
+      ∃ ds, (formatInt v b).toList = (if v < 0 then '-' :: ds else ds) ∧
+        ((evalDigits b ds : Nat) : Int) = (if v < 0 then -v else v) ∧ ∀ c ∈ ds, digitVal c < b := by
+  refine ⟨by decide, by decide, by decide, ?_⟩
+  intro b v hb2 hb36
+  by_cases hv : v < 0
+  · obtain ⟨h1, h2⟩ := evalDigits_natDigits b hb2 hb36 v.natAbs
+    refine ⟨natDigits b v.natAbs [], by simp [formatInt, hv], ?_, h2⟩
+    rw [h1]; simp only [hv, if_true]; omega
+  · obtain ⟨h1, h2⟩ := evalDigits_natDigits b hb2 hb36 v.toNat
+    refine ⟨natDigits b v.toNat [], by simp [formatInt, hv], ?_, h2⟩
+    rw [h1]; simp only [hv, if_false]; omega
+
+/-- Non-vacuity: `2^63 − 1` in base 36 and a negative value in base 2. -/
+example : formatInt (2 ^ 63 - 1) 36 = "1y2p0ij32e8e7" ∧ formatInt (-5) 2 = "-101" := by
+  constructor <;> decide +kernel
 
 /-! ## StrGenerator (the random source is an arbitrary word stream `ws`) -/
 
